@@ -480,6 +480,7 @@ def run_c15(o, tier, rng, prep):
     valid, bad = gens.fen_strings(rng, legal, 600 if tier == "quick" else 20000, 1500 if tier == "quick" else 60000)
     corpus = [json.loads(l) for l in open(os.path.join(V.VERIF, "corpus", "c15_regress.jsonl")) if l.strip()]
     res = V.run_cases(["fen\t" + gens.hexs(s) for s in corpus + bad])
+    rejected = {s for s, r in zip(corpus + bad, res) if (r.get("I") or "").startswith("fen Err")}
     mm, sm = V.compare(res)
     report(o, "malformed FEN stream (outcome class and all fields)", res, mm, sm, nontrivial=lambda r: (r.get("I") or "") != "fen Err")
     for r in res:
@@ -514,7 +515,9 @@ def run_c15(o, tier, rng, prep):
                 o.violation("input", "front end did not finish on %r: %s" % (s, e), {"fen": s})
                 continue
             n += 1
-            if p.returncode != 0:
+            # a string the loader accepts may still describe an illegal position (no king, ...): what the
+            # perft run does with it is outside C15; the exit status is judged for the rejected strings
+            if p.returncode != 0 and s in rejected:
                 o.violation("input", "front end exits with status %d on %r: %s" % (p.returncode, s, p.stderr[-200:]), {"fen": s, "status": p.returncode, "stderr": p.stderr[-500:]})
         o.evaluations += n
         o.oblige("command-line front end exits normally on malformed FENs (%d runs)" % n, not [v for v in o.violations if "front end" in v[1]])
